@@ -10,3 +10,5 @@ INVARIANT DistValidOK
 INVARIANT EntangleOK
 INVARIANT FairOK
 INVARIANT ResampleOK
+INVARIANT Drift_RandomPair
+INVARIANT Drift_RandomClifford
